@@ -173,7 +173,10 @@ class Env:
 
             f = {"SUM": an.Sum, "ROW_NUMBER": lambda: an.RowNumber()}[t["f"]]
             r = f(*[self.term(x) for x in t["args"]])
-            if t["part"]:
+            if t["part"] and t.get("sep"):
+                for x in t["part"]:
+                    r = r.over(self.term(x))
+            elif t["part"]:
                 r = r.over(*[self.term(x) for x in t["part"]])
             for x in t["ord"]:
                 r = r.orderby(self.term(x))
